@@ -348,6 +348,8 @@ func (x *Engine) verifyFunc(fs *FuncSpec, cs *Clause, prop string, mode string) 
 	}
 	if x.conc {
 		x.setupConc(fr, st, fs)
+	} else {
+		x.setupWritten(fr, st, fs)
 	}
 	for _, c := range fs.Lets {
 		ev := &Eval{x: x, st: st, old: st, env: fr.env, pkg: pkg}
@@ -486,6 +488,9 @@ func (x *Engine) verifyFunc(fs *FuncSpec, cs *Clause, prop string, mode string) 
 			}
 			if x.conc && len(c.Props) == 0 {
 				continue // sequential clauses are not valid under interference
+			}
+			if modeExcluded(c.Props, x.conc) {
+				continue // {.., seq}: stated for one thread only; {.., conc}: stated for the thread-modular pass only
 			}
 			ev := &Eval{x: x, st: ret, old: fr.entry, env: env, pkg: pkg}
 			g := x.safeEvalBool(ev, c)
@@ -706,4 +711,10 @@ func stableOrigin(o string) string {
 		s = s[:120] + "..."
 	}
 	return s
+}
+
+// modeExcluded: on a postcondition the pseudo tags restrict, they do not select — {P, seq} is stated under P in the
+// one-thread pass only, {P, conc} under P in the thread-modular pass only.
+func modeExcluded(props []string, conc bool) bool {
+	return (conc && hasProp(props, "seq")) || (!conc && hasProp(props, "conc"))
 }
